@@ -4281,6 +4281,24 @@ func (l *channelLink) processRemoteUpdateFulfillHTLC(
 	return nil
 }
 
+// assertOutgoingHtlcLockedIn checks that the outgoing HTLC with the given index
+// is active on both commitment transactions, which is required before the
+// remote party may fail it. Like for an early settle, the link is failed if
+// that is not the case.
+func (l *channelLink) assertOutgoingHtlcLockedIn(idx uint64) error {
+	for _, add := range l.channel.ActiveHtlcs() {
+		if !add.Incoming && add.HtlcIndex == idx {
+			return nil
+		}
+	}
+
+	err := fmt.Errorf("unable to handle upstream fail: outgoing HTLC "+
+		"%d is not locked in", idx)
+	l.failf(LinkFailureError{code: ErrInvalidUpdate}, "%v", err)
+
+	return err
+}
+
 // processRemoteUpdateFailMalformedHTLC takes an `UpdateFailMalformedHTLC` msg
 // sent from the remote and processes it.
 func (l *channelLink) processRemoteUpdateFailMalformedHTLC(
@@ -4338,6 +4356,11 @@ func (l *channelLink) processRemoteUpdateFailMalformedHTLC(
 		return fmt.Errorf("unable to encode malformed error: %w", err)
 	}
 
+	// The remote party may only fail an HTLC that is fully locked in.
+	if err := l.assertOutgoingHtlcLockedIn(msg.ID); err != nil {
+		return err
+	}
+
 	// If remote side have been unable to parse the onion blob we have sent
 	// to it, than we should transform the malformed HTLC message to the
 	// usual HTLC fail message.
@@ -4380,8 +4403,13 @@ func (l *channelLink) processRemoteUpdateFailHTLC(
 		}
 	}
 
-	// Add fail to the update log.
+	// The remote party may only fail an HTLC that is fully locked in.
 	idx := msg.ID
+	if err := l.assertOutgoingHtlcLockedIn(idx); err != nil {
+		return err
+	}
+
+	// Add fail to the update log.
 	err := l.channel.ReceiveFailHTLC(idx, msg.Reason[:])
 	if err != nil {
 		l.failf(LinkFailureError{code: ErrInvalidUpdate},
